@@ -8,6 +8,7 @@ echo >> $out; echo "| seed | property | outcome | detail |" >> $out; echo "|---|
 for d in /verif/seeded/*/; do
   id=$(basename $d); prop=${id%%-*}
   [ -n "$1" ] && [ "$1" != "$prop" ] && [ "$1" != "$id" ] && continue
+  if grep -q '"obsolete"' $d/meta.json 2>/dev/null; then echo "| $id | $prop | obsolete at the current HEAD (see meta.json) | |" >> $out; echo "$id: obsolete"; continue; fi
   if ! git -C /repo apply --check $d/patch.diff 2>/dev/null; then echo "| $id | $prop | patch no longer applies | |" >> $out; continue; fi
   git -C /repo apply $d/patch.diff
   res=$(bin/check $prop quick 2>&1); rc=$?
